@@ -122,3 +122,69 @@ Proof.
   split; [vm_compute; reflexivity|].
   eexists; repeat split; vm_compute; reflexivity.
 Qed.
+
+(* ---- which trace is PRINTED: the stored-trace protocol of vm/thread.go (errStackTrace/errValue,
+   throw, throwIfErr, rethrow at a stopVM frame), with the fix that throwIfErr forgets the stored
+   trace when its instruction finished without an error (cfg_clear = true).  For EVERY earlier
+   history of errors that were swallowed by native code or caught, of any origin and value, and
+   every uncaught error whose origin is a THROW instruction or a native error, handed back through
+   any number of nested runs (closures/methods/generators called from native code), the printed
+   trace is the one assembled from the thread state at the ORIGINAL throw. *)
+Theorem C32_reported_trace : forall h o v,
+  reported (CFG true false) h o v = build_trace (origin_thread o).
+Proof. intros. apply reported_trace; [reflexivity|left; reflexivity]. Qed.
+Print Assumptions C32_reported_trace.
+
+(* trace assembly takes no error value (build_trace : thread -> list entry); the value only enters
+   throwIfErr's decision to reuse the stored trace, and the printed trace does not depend on it,
+   nor on the values and origins of earlier errors: a Symbol, small Int, Float, Bool, nil, Char
+   (VInline) and a String or Error object (VRef) thrown at the same place print the same trace. *)
+Theorem C32_trace_value_independent : forall h h' o v v',
+  reported (CFG true false) h o v = reported (CFG true false) h' o v'.
+Proof. intros. rewrite !C32_reported_trace. reflexivity. Qed.
+Print Assumptions C32_trace_value_independent.
+
+(* the code as found (no clearing): the same holds when no earlier error was swallowed by native
+   code after leaving a nested run *)
+Theorem C32_reported_trace_as_found_partial : forall h o v,
+  all_caught h ->
+  reported (CFG false false) h o v = build_trace (origin_thread o).
+Proof. intros h o v H. apply reported_trace; [reflexivity|right; exact H]. Qed.
+Print Assumptions C32_reported_trace_as_found_partial.
+
+Definition ex_f (n l : Z) : bcfun := BF n 7 [LI l 4].
+(* phase 1: a generator (function 2) driven to completion by a `for` loop in function 1 - its
+   STOP_ITERATION is swallowed by NEXT; phase 2: a native iterator's :stop_iteration (the same
+   inline value) in function 4 called from function 3 *)
+Definition ex_stale_hist : list (origin * errval * ending) :=
+  [(Direct (TH [FEmpty; FBytecode (ex_f 1 10) 2 0] (Some (ex_f 2 20, 2, 0))), VInline 5, Swallowed)].
+Definition ex_stale_origin : origin := Native (TH [FEmpty; FBytecode (ex_f 3 30) 2 0] (Some (ex_f 4 40, 2, 0))).
+
+(* as found, an earlier swallowed error lends its trace to a later, unrelated error with an equal
+   inline value (witness: corpus/C32.vprog.txt, known finding prog:stale-trace...) *)
+Theorem C32_stale_trace_as_found_refuted :
+  exists h o v, reported (CFG false false) h o v <> build_trace (origin_thread o).
+Proof.
+  exists ex_stale_hist, ex_stale_origin, (VInline 5). vm_compute. discriminate.
+Qed.
+Print Assumptions C32_stale_trace_as_found_refuted.
+
+(* reusing the stored trace only for reference values (the seeded variant of the strengthening
+   round) loses the frames of the nested run for every inline value *)
+Theorem C32_reference_only_reuse_refuted :
+  exists o v, reported (CFG true true) [] o v <> build_trace (origin_thread o).
+Proof.
+  exists (Crossed (Direct (TH [FEmpty; FBytecode (ex_f 1 10) 2 0] (Some (ex_f 2 20, 2, 0))))
+                  (TH [FEmpty] (Some (ex_f 1 10, 2, 0)))), (VInline 5).
+  vm_compute. discriminate.
+Qed.
+Print Assumptions C32_reference_only_reuse_refuted.
+
+Example C32_reported_nonvacuous :
+  reported (CFG true false) ex_stale_hist ex_stale_origin (VInline 5) = [EN 3 7 30 0; EN 4 7 40 0] /\
+  reported (CFG false false) ex_stale_hist ex_stale_origin (VInline 5) = [EN 1 7 10 0; EN 2 7 20 0] /\
+  reported (CFG false false) ex_stale_hist ex_stale_origin (VRef 5) = [EN 3 7 30 0; EN 4 7 40 0] /\
+  reported (CFG true false) []
+    (Crossed (Direct (TH [FEmpty; FBytecode (ex_f 1 10) 2 0] (Some (ex_f 2 20, 2, 0)))) (TH [FEmpty] (Some (ex_f 1 10, 2, 0))))
+    (VInline 5) = [EN 1 7 10 0; EN 2 7 20 0].
+Proof. repeat split; vm_compute; reflexivity. Qed.
